@@ -18,7 +18,8 @@ Open Scope Z_scope.
 
 (** ** Results.  [ErrorOrPanic]: marshmallow populates a struct from a Go map, i.e. in random
     order; when one member makes it stop with an error and another one makes it panic, either
-    can happen first. *)
+    can happen first.  (Since the repair of F6c no decoder of this model produces [Panic] or
+    [ErrorOrPanic] any more -- theorem C16_decode_total; they remain for the tile addressing functions.) *)
 Inductive outcome (A : Type) :=
 | Ok (a : A)
 | Error
@@ -93,7 +94,7 @@ Inductive conv (A : Type) :=
 | CNil          (* JSON null: the field keeps its zero value *)
 | CSoft         (* an error is recorded, population of the other members goes on *)
 | CHard         (* an error is recorded and population stops (ModeFailOnFirstError) *)
-| CPanic.       (* reflect: array index out of range *)
+| CPanic.       (* reflect: array index out of range -- not produced any more (F6c repaired) *)
 Arguments CVal {A} a.
 Arguments CNil {A}.
 Arguments CSoft {A}.
@@ -133,29 +134,17 @@ Definition conv_strs (j : json) : conv (list string) :=
   | _ => CHard
   end.
 
-(** [2]float64 from an array: element i is stored with reflect's Index(i) -- no length check *)
-Fixpoint point_loop (l : list json) (i : nat) (p : dec * dec) : conv (dec * dec) :=
-  match l with
-  | [] => CVal p
-  | JNull :: r => point_loop r (S i) p
-  | JNum d :: r =>
-      match f64_dec d with
-      | FInf _ => CSoft
-      | FNum _ =>
-          match i with
-          | O => point_loop r 1%nat (d, snd p)
-          | S O => point_loop r 2%nat (fst p, d)
-          | _ => CPanic
-          end
-      end
-  | _ :: _ => CSoft
-  end.
-
+(** TwoDPoint.UnmarshalJSONFromMap / UnmarshalJSON (since the repair of F6c): exactly an array of two numbers;
+    anything else -- another length, a non-number element, null, a non-array -- is an error (recorded by the custom
+    unmarshaler, so in a tile matrix it does not stop the population of the other members) *)
 Definition conv_point (j : json) : conv (dec * dec) :=
   match j with
-  | JNull => CNil
-  | JArr l => point_loop l 0%nat (dzero, dzero)
-  | _ => CHard
+  | JArr [JNum a; JNum b] =>
+      match f64_dec a, f64_dec b with
+      | FNum _, FNum _ => CVal (a, b)
+      | _, _ => CSoft
+      end
+  | _ => CSoft
   end.
 
 Definition uint_member (k : string) (o : obj) : option Z :=   (* None: wrong type *)
@@ -232,13 +221,10 @@ Definition decodeTM (o : obj) : outcome tileMatrix :=
   let c_mw := member "matrixWidth" conv_uint o in
   let c_mh := member "matrixHeight" conv_uint o in
   let c_vm := member "variableMatrixWidths" conv_vmws o in
-  let panics := is_panic c_po in
   let hard := is_hard c_id || is_hard c_title || is_hard c_desc || is_hard c_kw || is_hard c_sd || is_hard c_cs
               || is_hard c_po || is_hard c_tw || is_hard c_th || is_hard c_mw || is_hard c_mh || is_hard c_vm in
   let soft := is_soft c_kw || is_soft c_co || is_soft c_po || is_soft c_vm in
-  if panics && hard then ErrorOrPanic
-  else if panics then Panic
-  else if hard || soft then Error
+  if hard || soft then Error
   else
     let m := MkTM (cval c_id "") (cval c_title "") (cval c_desc "") (copt c_kw)
                   (cval c_sd dzero) (cval c_cs dzero) (cval c_co CornerUnset) (copt c_po)
@@ -444,12 +430,12 @@ Definition bb_step (a : bbacc) (kv : string * json) : outcome bbacc :=
   if String.eqb k "lowerLeft" then
     match conv_point v with
     | CVal p => Ok (MkBBAcc (Some p) (ba_ur a) (ba_axes a) (ba_crs a))
-    | CNil => Ok a | CPanic => Panic | _ => Error
+    | _ => Error
     end
   else if String.eqb k "upperRight" then
     match conv_point v with
     | CVal p => Ok (MkBBAcc (ba_ll a) (Some p) (ba_axes a) (ba_crs a))
-    | CNil => Ok a | CPanic => Panic | _ => Error
+    | _ => Error
     end
   else if String.eqb k "orderedAxes" then
     match conv_strs v with
